@@ -413,6 +413,18 @@ var witnesses = []witness{
 		wPrelude + "$p((null ?? o.f)?.());\n$p((1 && o.f)?.());\n", es(api.ES2019)},
 	{"C05-F7", "class .name changes when static fields / static blocks are lowered (no keep-names)",
 		"class C1 { static sarrow = () => this === C1; }\nvar C2 = class Inner { static s = 1; };\n$p(C1.name, C2.name);\n", es(api.ES2021)},
+	{"C05-F2b", "`a[f()] ||= 5` where f() reassigns `a` (no getter involved): lowered to `a[_a = f()] || (a[_a] = 5)`, `a` is re-read after f() ran and the store goes to the new object",
+		"var o1 = {tag: \"o1\"}, o2 = {tag: \"o2\"};\nvar a = o1;\nfunction f() { a = o2; return \"k\"; }\na[f()] ||= 5;\n$p(o1, o2);\n", es(api.ES2020)},
+	{"C05-F3b", "`b[g()]?.()` where g() reassigns `b`: lowered to `(_a = b[g()]) == null ? void 0 : _a.call(b)`, this is the new object",
+		"var o1 = {tag: \"o1\", m() { return this.tag; }}, o2 = {tag: \"o2\", m: o1.m};\nvar b = o1;\nfunction g() { b = o2; return \"m\"; }\n$p(b[g()]?.());\n", es(api.ES2019)},
+	{"C05-F10", "a parameter with object rest is destructured in the body, after the default values of later parameters were evaluated",
+		"function fn({a = $p(\"default-a\"), ...rest}, b = $p(\"default-b\")) { return [a, rest, b]; }\nfn({x: 1});\n", es(api.ES2017)},
+}
+
+// Findings that were repaired by a fix: commit in /repo: their inputs (and close
+// variants) must behave identically now; a difference is a VIOLATION (a revert
+// of the fix is reported with the input).
+var mustPass = []witness{
 	{"C05-F8", "`super.x` inside an `async *` method: the lowered generator callback still contains `super` (output is a SyntaxError, no error reported)",
 		"class A { get v() { return \"base-v\"; } }\nclass B extends A { async *ag() { yield super.v; } }\n(async () => { for await (var q of new B().ag()) $p(q); })();\n", es(api.ES2017)},
 	{"C05-F9", "lowered async generator: return() (e.g. break in for-await) while suspended in a try whose finally awaits skips the rest of the finally block",
@@ -423,12 +435,19 @@ var witnesses = []witness{
 	{"C05-F12", "temporaries collide: the loop variable of a lowered `for (var {a, ...r} of ...)` and the cache of a lowered tagged template are both `_a` in the same scope (--target=node8): the tag function receives the loop object instead of the strings array",
 		"for (var {a, ...rest} of [{a: 1, q: 2}]) { $p(rest); }\nfunction tag(strs) { return strs; }\nvar r = tag`x`;\n$p(r, Object.isFrozen(r));\n",
 		api.TransformOptions{Loader: api.LoaderJS, LogLevel: api.LogLevelSilent, Engines: []api.Engine{{Name: api.EngineNode, Version: "8"}}}},
-	{"C05-F2b", "`a[f()] ||= 5` where f() reassigns `a` (no getter involved): lowered to `a[_a = f()] || (a[_a] = 5)`, `a` is re-read after f() ran and the store goes to the new object",
-		"var o1 = {tag: \"o1\"}, o2 = {tag: \"o2\"};\nvar a = o1;\nfunction f() { a = o2; return \"k\"; }\na[f()] ||= 5;\n$p(o1, o2);\n", es(api.ES2020)},
-	{"C05-F3b", "`b[g()]?.()` where g() reassigns `b`: lowered to `(_a = b[g()]) == null ? void 0 : _a.call(b)`, this is the new object",
-		"var o1 = {tag: \"o1\", m() { return this.tag; }}, o2 = {tag: \"o2\", m: o1.m};\nvar b = o1;\nfunction g() { b = o2; return \"m\"; }\n$p(b[g()]?.());\n", es(api.ES2019)},
-	{"C05-F10", "a parameter with object rest is destructured in the body, after the default values of later parameters were evaluated",
-		"function fn({a = $p(\"default-a\"), ...rest}, b = $p(\"default-b\")) { return [a, rest, b]; }\nfn({x: 1});\n", es(api.ES2017)},
+	{"C05-F12", "(variant) object rest in a var declaration next to a tagged template, --target=node8",
+		"var src = {a: 1, q: 2};\nvar {a, ...rest} = src;\n$p(rest);\nfunction tag(strs) { return strs; }\nvar r = tag`x`;\n$p(r, Object.isFrozen(r));\n",
+		api.TransformOptions{Loader: api.LoaderJS, LogLevel: api.LogLevelSilent, Engines: []api.Engine{{Name: api.EngineNode, Version: "8"}}}},
+	{"C05-F9", "(variant) it.return() while suspended in a try whose finally awaits and then yields",
+		"async function* ag() { try { yield 1; yield 2; } finally { $p(\"finally\"); await null; yield \"from-finally\"; $p(\"after\"); } }\n(async () => { var it = ag(); $p(await it.next()); $p(await it.return(\"early\")); $p(await it.next()); $p(await it.next()); })();\n", es(api.ES2017)},
+	{"C05-F9", "(variant) only async-generator unsupported", 
+		"async function* g() { try { yield 1; yield 2; } finally { $p(\"cleanup1\"); await null; $p(\"cleanup2\"); } }\n(async () => { for await (var x of g()) { $p(\"body\", x); break; } $p(\"after loop\"); })();\n",
+		api.TransformOptions{Loader: api.LoaderJS, LogLevel: api.LogLevelSilent, Target: api.ESNext, Supported: map[string]bool{"async-generator": false}}},
+	{"C05-F8", "(variant) super method call and super in a nested arrow inside an async generator method",
+		"class A { m(x) { return \"A.m\" + x; } }\nclass B extends A { async *ag() { yield super.m(1); yield (() => super.m(2))(); } }\n(async () => { for await (var q of new B().ag()) $p(q); })();\n", es(api.ES2017)},
+	{"C05-F11", "(variant) static private method next to a brand check, --target=chrome90",
+		"class C2 {\n  static #sm() { return 7; }\n  static call() { return C2.#sm(); }\n  #p = 1;\n  static hasP(o) { return #p in o; }\n}\n$p(C2.call(), C2.hasP(new C2), C2.hasP({}));\n",
+		api.TransformOptions{Loader: api.LoaderJS, LogLevel: api.LogLevelSilent, Engines: []api.Engine{{Name: api.EngineChrome, Version: "90"}}}},
 }
 
 func witnessReplay(st *Stats) {
@@ -460,6 +479,29 @@ func witnessReplay(st *Stats) {
 		st.Fail("established-divergence:"+w.id, map[string]string{"id": w.id, "program": w.src, "output": outs[i], "what": w.what}, b.String(), a.String())
 	}
 	st.Extra["witness_replay"] = replay
+	// repaired findings: must pass
+	var mp []string
+	mpo := make([]string, len(mustPass))
+	for i, w := range mustPass {
+		res := api.Transform(w.src, w.opts)
+		if len(res.Errors) > 0 {
+			mpo[i] = "throw new SyntaxError(\"esbuild error\");"
+		} else {
+			mpo[i] = string(res.Code)
+		}
+		mp = append(mp, w.src, mpo[i])
+	}
+	if rs, err := runNodeAsync(mp, 3000); err != nil {
+		st.Fail("node-oracle-unavailable", err.Error(), nil, nil)
+	} else {
+		for i, w := range mustPass {
+			a, b := rs[2*i], rs[2*i+1]
+			st.Note("fixed-finding-replay", w.id+w.what, true)
+			if !a.Same(b) {
+				st.Fail("repaired-finding-regressed:"+w.id, map[string]string{"id": w.id, "program": w.src, "output": mpo[i], "what": w.what, "first_difference": firstDiff(a, b)}, b.String(), a.String())
+			}
+		}
+	}
 	// out of scope (ES5-only transformation reached through an override): observed, not judged
 	obsSrc := "class A { f = () => this instanceof A; }\n$p(new A().f());\n"
 	obsRes := api.Transform(obsSrc, api.TransformOptions{Loader: api.LoaderJS, LogLevel: api.LogLevelSilent, Target: api.ESNext, Supported: map[string]bool{"arrow": false}})
